@@ -7,6 +7,7 @@ import (
 	"fmt"
 	"os"
 	"runtime"
+	"strconv"
 	"sync"
 	"sync/atomic"
 	"syscall"
@@ -72,10 +73,19 @@ var (
 	slots   []*slot
 	slotsMu sync.Mutex
 	// HangAfter is the generous per-case watchdog (DESIGN §7.2).
-	HangAfter = 120 * time.Second
+	// It is a wall-clock bound, so it is far above anything a case takes even on a machine
+	// that is busy with other work (the slowest cases take seconds); VERIF_HANG_S overrides it.
+	HangAfter = hangAfter()
 	// OnHang is called (once) with the description of the stuck case.
 	OnHang func(what string)
 )
+
+func hangAfter() time.Duration {
+	if v, err := strconv.Atoi(os.Getenv("VERIF_HANG_S")); err == nil && v > 0 {
+		return time.Duration(v) * time.Second
+	}
+	return 900 * time.Second
+}
 
 func init() {
 	go func() {
